@@ -157,6 +157,11 @@ def stepInfer (st : DState) (e : Sexp) : Option (DState × String) :=
     let s ← Sexp.schema? s
     let args ← args.mapM Sexp.arg?
     pure (st, runInfer L s args)
+  | .list (.atom "infersched" :: .list perm :: s :: args) => do
+    let perm ← perm.mapM Sexp.nat?
+    let s ← Sexp.schema? s
+    let args ← args.mapM Sexp.arg?
+    pure (st, runInferS L (priorityOrd perm) s args)
   | _ => none
 
 def stepParse (st : DState) (e : Sexp) : Option (DState × String) :=
